@@ -375,6 +375,7 @@ def run_case(case, judge_overruns=False):
         cells = {i: h["default"] for i, h in enumerate(hv)}
         table = {}        # key tuple -> value list
         table2 = {}
+        sibkeys = set()
         order = []
         crossed = False
         written_by = {}
@@ -611,8 +612,18 @@ def run_case(case, judge_overruns=False):
                                         f"its hash variable {k}:{fmt} after "
                                         f"{v} was written", bucket=kind)
                     else:
-                        other.table[mk(Key, knames, key)] = mk(
-                            Value, vnames, op["vals"])
+                        full = len(sibkeys) >= case["size"] \
+                            and key not in sibkeys
+                        try:
+                            other.table[mk(Key, knames, key)] = mk(
+                                Value, vnames, op["vals"])
+                            sibkeys.add(key)
+                        except IndexError:
+                            if not full or case["lru"]:
+                                return fail("insert into the Dict of the "
+                                            "second program object failed "
+                                            "with IndexError although it is "
+                                            "not full", bucket=kind)
                     got = getattr(e, f"hv{k}")
                     if got != cells[k]:
                         return fail(f"after a write to the second program "
